@@ -318,7 +318,32 @@ def c06e(ctx):
                     work.append(site)
 
 
+def c06f(ctx):
+    """The wait-for graph that the cycle probe walks IS the callee tables of the in-flight computations.  Every call made
+    on behalf of an in-flight query — executing or merely repairing — has to be entered there before the caller may wait:
+    an edge left out makes a cycle through it invisible, and the closing query waits for ever."""
+    prog = ctx.prog
+    o = ctx.ob("C06.f", "register_callee/every-query-caller-is-registered", "K2",
+               "Engine::register_callee records the callee in the caller's table on every path that has a query caller (no early return before register_calee)")
+    cl = [x for x in prog.find(r"^Engine::register_callee::\{closure#\d+\}$") if x.calls_to(r"QueryComputing::register_calee$")]
+    o.sites = len(cl)
+    if len(cl) != 1:
+        ctx.fail(o, "(program)", "anchor missing: the closure of register_callee that records the callee (found %d)" % len(cl))
+        return
+    c = ctx.touch(cl[0])
+    reg = c.calls_to(r"QueryComputing::register_calee$")
+    bad = c.must_pass([0], [r_.bb for r_ in reg])
+    if bad:
+        ctx.fail(o, Site(c, bad[0], 0), "register_callee can return for a query caller without having recorded the callee: the wait-for edge of that call is missing from "
+                 "the graph the cycle probe searches (a repairing caller waits on its callee like an executing one)")
+    # and the token it hands back un-registers exactly that callee of exactly that computing record
+    ag = c.aggregates(r"register_callee::UndoRegisterCallee$") or c.calls_to(r"UndoRegisterCallee::new$")
+    if not ag:
+        ctx.fail(o, Site(c, 0, 0), "register_callee does not hand back an UndoRegisterCallee")
+
+
 def run(ctx):
+    ctx.run_clause("C06.f", c06f)
     ctx.run_clause("C06.d", c06d)
     ctx.run_clause("C06.e", c06e)
     ctx.run_clause("C06.a", c06a)
